@@ -34,12 +34,12 @@ K_SET_PARENT_COL = 'C06:inheritable-set-parent-column-written-before-failing-upd
 K_TX_DESTROYED_STALE = 'C06:rolled-back-destroySelf-cascaded-instance-keeps-changed-value'
 
 META = {
-    'extractors': ['pymain', 'pycreate', 'pyinherit', 'pydestroy'],
+    'extractors': ['pymain', 'pycreate', 'pyinherit', 'pyinhset', 'pydestroy'],
     'technique': ('Lean 4 proof over a micro-step program model of every write operation (generic interpreter with '
                   'statement counting, fault injection, statement-level rejection, clean-up handlers) + differential '
                   'correspondence with fault injection at every statement index + state-dump oracle; TRANSLATOR tie: the Python '
-                  'AST of _SO_setValue / set (pymain), __init__ / _create / _SO_finishCreate (pycreate), InheritableSQLObject._create '
-                  '(pyinherit) and destroySelf (pydestroy) is translated on every run into deep embeddings whose EXCEPTION-INJECTING '
+                  'AST of _SO_setValue / set / syncUpdate (pymain), __init__ / _create / _SO_finishCreate (pycreate), InheritableSQLObject._create / destroySelf '
+                  '(pyinherit), InheritableSQLObject.set and the inherited-column setter (pyinhset) and destroySelf (pydestroy) is translated on every run into deep embeddings whose EXCEPTION-INJECTING '
                   'reference semantics (Model/PyFail.lean, PyCreate.lean, FailInhX.lean, PyDestroyF.lean: every connection call and every '
                   'validator call takes its outcome from a schedule indexed by the call position, like the cursor stub of this harness) is '
                   'proved, by symbolic execution for all states / argument lists / schedules, to end exactly as the hand-compiled '
@@ -56,18 +56,19 @@ META = {
                    'effective statement computed from the dependents list.  C06_nonatomic_cases_exactly spells out the complement '
                    '(= the open known findings), C06_destroy_refused_noop_iff gives both directions for a refused destroySelf, '
                    'C06_frame / C06_failed_op_is_noop_partial (semantic) and the *_full_FALSE witnesses are kept.  '
-                   'TRANSLATED SOURCE: C06_translated_{setattr_eager,setattr_lazy,set_eager,set_lazy,set_extras_eager,set_extras_lazy,create,'
-                   'destroy,plain_destroy,inheritable_create_level,inheritable_create}_eq_model: the Python functions themselves (translated from '
+                   'TRANSLATED SOURCE: C06_translated_{setattr_eager,setattr_lazy,set_eager,set_lazy,set_extras_eager,set_extras_lazy,set_translated_setters,'
+                   'inheritable_set,syncUpdate,create,create_fkobj,destroy,plain_destroy,inheritable_create_level,inheritable_create,'
+                   'inheritable_create_one_world}_eq_model: the Python functions themselves (translated from '
                    'the AST on every run), run under an injection schedule, end in the same error, statement log and tables / instances / '
                    'registrations as the hand-compiled trees, for every schema, state, argument list and schedule; C06_translated_step_eq_model '
-                   '(stepX = step on every tied operation), C06_translated_frame (exactness of the interpreter ghost counter, by induction over '
+                   '(stepX = step on EVERY operation kind of the model: setattr, set, syncUpdate, create, createChild / createChain, destroySelf), C06_translated_frame (exactness of the interpreter ghost counter, by induction over '
                    'the syntax), C06_translated_failed_op_is_noop_partial (AtomicX), _syntactic (AtomicSyn), _success_or_unchanged, and the '
                    'witnesses replayed through the translated programs (C06_translated_*_full_FALSE).'),
     'level_note': ('Trusted: Lean kernel; the AST translators vlib/extractors/{pymain,pycreate,pyinherit,pydestroy}.py and the reference semantics '
                    'of the four embeddings with their stated interfaces (what a connection call / validator / cache call / property setter / '
                    'select result is: headers of Model/PyFail.lean, PyCreate.lean, FailInhX.lean, FailDestroyX.lean, FailDestroyInhX.lean); the '
-                   'hand-written micro-step program model is now PROVED equal to the translated source for setattr, set, create, destroySelf and '
-                   'the inheritable create (syncUpdate alone stays hand-modelled) and is additionally tied on every run by three '
+                   'hand-written micro-step program model is now PROVED equal to the translated source for every operation (setattr, set incl. the inheritable '
+                   'override and translated setters, syncUpdate, create, destroySelf, the inheritable create in one world with translated callees) and is additionally tied on every run by three '
                    'correspondence streams: outcome, SQL statement sequence and full post-state, for the uninjected call and for an error '
                    'at every statement index; statement-level atomicity of SQLite; no signal listeners; cacheValues=True. '
                    'Open known findings (non-atomic failures of the current code) are reported with stable keys; the keys of the three repaired ones (a587e1a, 0470de1, bf075e4) are still emitted if the damage shows up again.'),
@@ -84,9 +85,10 @@ META = {
                  'after every failed call the oracle also checks that each held live instance is still the very object the cache hands out (tryGet is inst, both directions) and re-fetches it with get()',
                  'configurations beyond the model, oracle only: connections built from URI option strings (autoCommit=0/1/false, cache=1: all equivalent to the default on SQLite); the same calls inside a transaction on a FILE database (own raw connection, transaction cache culled once), rolled back when the call raises: tables and link rows are what they were and every attribute the application reads from a held instance equals the row'],
     'assumptions': ['translated source: values are identified across from_python / to_python (the hand model has one value per column); every column has both validators; '
-                    '_SO_createValues is a dict up to order; the inheritable create is tied in its own world with SQLObject._create and _parent.destroySelf() as interface '
-                    'calls equal to the hand trees (each of which is proved equal to its translated source separately); create is tied for keyword lists of plain columns '
-                    '(no ForeignKey-by-object keyword, no connection= keyword); _init / _SO_selectInit are an interface call (SELECT + reload; translated and proved for C05); '
+                    '_SO_createValues is a dict up to order; in the inheritable create the constructor parentClass(kw=..., connection=...) is _create of a fresh instance at the parent '
+                    'level (__init__ is not re-run per level) and non-root levels must get their required keywords (Required); create with ForeignKey-by-object keywords is tied '
+                    'against createProg with the by-object columns appended (the hand tree ignores .fk extras in create; this harness generates no such create); no connection= keyword; '
+                    'the eval-generated setter lambdas of main.py (column setter, ForeignKey-by-object setter) are interface;  _init / _SO_selectInit are an interface call (SELECT + reload; translated and proved for C05); '
                     'RecursionError of a cascade cycle = fuel exhaustion',
                     'sqlite_sequence (AUTOINCREMENT counters) is not application data: ids consumed by a failed create are not compared',
                     'the injected error is single-shot: statements after the k-th are executed normally',
